@@ -296,6 +296,22 @@ def run(ctx):
                       {'trace': batch[i], 'line': at},
                       'recorded clock trace rejected at line %d: %s' % (at, batch[i][at - 1] if at <= len(batch[i]) else None))
     ctx.stage('clock-traces', traces=len(batch), accepted=len(batch) - len(rejected))
+    # 4b. the repository's own tests as workloads (vf.repo_recorder wraps the clock entry points from outside)
+    from vf import repo_traces
+    rec = repo_traces.record(ctx, ['oslo_utils/tests/test_timeutils.py', 'oslo_utils/tests/test_fixture.py'], 'clock', 'clock')
+    rtr = [t['ev'] for t in rec['clock']]
+    if rtr:
+        rejected, inv, r = traces.validate(ctx, 'Trace_TimeOverride', rtr, 'repo')
+        ctx.tlc(r, 'Trace_TimeOverride on traces recorded from the repository\'s own tests', counts_as_states=False)
+        ctx.cov['traces_validated_against_impl'] += len(rtr) - len(rejected)
+        for i in sorted(rejected)[:5]:
+            at, inv1 = traces.diagnose(ctx, 'Trace_TimeOverride', rtr[i])
+            ctx.violation({'kind': 'repo-test-clock-trace', 'op': rtr[i][at - 1]['op'] if at <= len(rtr[i]) else 'end'},
+                          {'trace': rtr[i], 'line': at, 'test': rec['clock'][i].get('test')},
+                          'clock trace recorded while running %s rejected at line %d: %s' % (
+                              rec['clock'][i].get('test'), at, rtr[i][at - 1] if at <= len(rtr[i]) else None))
+    ctx.stage('repo-test-traces', tests=rec['tests'], traces=len(rtr), events=sum(len(t) for t in rtr),
+              unrepresentable=rec['clock_unrepresentable'], pytest=rec['pytest_tail'])
     # 5. binding self-test: a corrupted trace must be rejected
     good = [{'op': 'set', 'arg': [1, 0, 0], 'res': NONE, 'after': [1, 0, 0]},
             {'op': 'advance_seconds', 'arg': [0, 1, 0], 'res': NONE, 'after': [1, 1, 0]},
